@@ -506,3 +506,23 @@ pub fn gen_c15(tier: &str, rng: &mut Rng, w: &mut dyn Write) {
         writeln!(w, "{}", line).unwrap();
     }
 }
+
+pub fn gen_c16(tier: &str, rng: &mut Rng, w: &mut dyn Write) {
+    let top = if tier == "thorough" { 65536 } else { 4096 };
+    for n in 1..=top {
+        writeln!(w, "scopes {}", n).unwrap();
+    }
+    for n in [16777214u32, 16777215, 16777216, 16777217, 16777218] {
+        if tier == "thorough" {
+            writeln!(w, "scopes {}", n).unwrap();
+        }
+    }
+    // end to end on the real evaluator: the per-scope results add up to the unscoped result
+    let mut ns: Vec<u64> = vec![1, 2, 3, 4, 7, 10, 15, 16, 17, 31, 63, 64, 127, 255, 256, 1000, 2305, 4000];
+    for _ in 0..(if tier == "thorough" { 40 } else { 6 }) {
+        ns.push(1 + rng.below(3000));
+    }
+    for n in ns {
+        writeln!(w, "scopes_e2e {}", n).unwrap();
+    }
+}
